@@ -143,6 +143,9 @@ func (r *run) rawWriter(id int) {
 		p := append([]byte{st.Type}, reqPayload(id, seq, n)...)
 		if err := r.raw[st.Side].WritePacket(p); err != nil {
 			ss.werr = err
+			if r.fatal || r.phase == 2 {
+				return
+			}
 			r.c.Violate(Prop, "write-failed", "stream %d (raw packets of type %d, side %d): write of record #%d failed on a fault-free connection: %v", id, st.Type, st.Side, seq, err)
 			return
 		}
